@@ -147,6 +147,45 @@ fn build(sc: &Value) -> Plan {
             p.expect_final = Some((vec![], Some(16)));
             p.expect_events = vec![(1, vec![0])];
         }
+        "pipe_double" => {
+            let ptr = sc["ptr"].as_u64().unwrap_or(1000);
+            let data = words_of(&sc["data"]);
+            let init = words_of(&sc["init"]);
+            let n = data.len() as u64;
+            p.advice_stack = data.iter().flat_map(|x| x.iter().cloned()).collect();
+            // native model: the state [A (capacity), B, C]; every pair of words overwrites the rate and
+            // is followed by one RPO permutation
+            let mut state = [Felt::new(0); 12];
+            for (k, wd) in init.iter().take(3).enumerate() {
+                for i in 0..4 {
+                    state[4 * k + i] = Felt::new(wd[i]);
+                }
+            }
+            for pair in data.chunks(2) {
+                for i in 0..4 {
+                    state[4 + i] = Felt::new(pair[0][i]);
+                    state[8 + i] = Felt::new(pair[1][i]);
+                }
+                Rpo256::apply_permutation(&mut state);
+            }
+            for (i, wd) in data.iter().enumerate() {
+                p.expect_mem.push((ptr + i as u64, *wd));
+            }
+            p.expect_mem.push((ptr + n, [0; 4]));
+            // [C, B, A, write_ptr, end_ptr] with A pushed first
+            p.source = format!(
+                "use.std::mem\nbegin\n    push.{} push.{} {} {} {} exec.mem::pipe_double_words_to_memory\n    emit.1\n    dropw dropw dropw drop\nend\n",
+                ptr + n,
+                ptr,
+                pw(&init[0]),
+                pw(&init[1]),
+                pw(&init[2])
+            );
+            let mut e: Vec<u64> = (0..12).rev().map(|i| state[i].as_int()).collect();
+            e.push(ptr + n);
+            p.expect_events = vec![(1, e)];
+            p.expect_final = Some((vec![], Some(16)));
+        }
         "pipe_words" | "pipe_preimage" => {
             let ptr = sc["ptr"].as_u64().unwrap_or(1000);
             let data = words_of(&sc["data"]);
@@ -398,7 +437,7 @@ impl Prop for C18 {
         }
     }
     fn rule(&self) -> &'static str {
-        "one run = one stdlib scenario executed by the real VM against the simulated host: truncate_stack at depths 16..60; memcopy over (pointer, length) pairs incl. zero length, adjacent regions and regions overlapping with dst <= src; pipe_words_to_memory / pipe_preimage_to_memory for 1..9 words (valid and corrupted commitment); a history of 3-12 SMT set/get operations (insert, update, remove = set to the empty word, absent keys) on one evolving tree held by the host; a history of MMR add/get/pack+unpack operations; one third of the memcopy / pipe / SMT / MMR scenarios run inside a `call`ed procedure (own context: its memory is compared, the root context must stay untouched). After every operation the VM's observable result (values, old values, roots, peaks, hashes, pointers, memory of the root context) must equal the native model (miden-crypto Smt/Mmr, RPO, a word memory map). Fault leg: the host loses or corrupts one advice-map entry / store node / path at a request placed by a dry run: the run may fail, but whatever it reports must still equal the native model. One evaluation = one execution; non-trivial = all observation points of the honest run were compared; distinct = digest of the scenario."
+        "one run = one stdlib scenario executed by the real VM against the simulated host: truncate_stack at depths 16..60; memcopy over (pointer, length) pairs incl. zero length, adjacent regions and regions overlapping with dst <= src; pipe_words_to_memory / pipe_preimage_to_memory for 1..9 words, pipe_double_words_to_memory for 2..8 words from an arbitrary hasher state (valid and corrupted commitment); a history of 3-12 SMT set/get operations (insert, update, remove = set to the empty word, absent keys) on one evolving tree held by the host; a history of MMR add/get/pack+unpack operations; one third of the memcopy / pipe / SMT / MMR scenarios run inside a `call`ed procedure (own context: its memory is compared, the root context must stay untouched). After every operation the VM's observable result (values, old values, roots, peaks, hashes, pointers, memory of the root context) must equal the native model (miden-crypto Smt/Mmr, RPO, a word memory map). Fault leg: the host loses or corrupts one advice-map entry / store node / path at a request placed by a dry run: the run may fail, but whatever it reports must still equal the native model. One evaluation = one execution; non-trivial = all observation points of the honest run were compared; distinct = digest of the scenario."
     }
     fn generate(&self, rng: &mut Rng, _tier: Tier, _index: u64) -> Value {
         let mut sc = match rng.below(10) {
@@ -422,6 +461,13 @@ impl Prop for C18 {
                 let data: Vec<[u64; 4]> = (0..n + rng.below(2)).map(|_| rw(rng)).collect();
                 let pre: Vec<[u64; 4]> = (0..n + 2).map(|_| rw(rng)).collect();
                 json!({"kind": "memcopy", "src": src, "dst": dst, "n": n, "data": words_json(&data), "pre": words_json(&pre)})
+            }
+            4 if rng.chance(1, 3) => {
+                // pipe_double_words_to_memory: an even number of words, arbitrary initial hasher state
+                let n = 2 * rng.range(1, 5);
+                let data: Vec<[u64; 4]> = (0..n).map(|_| rw(rng)).collect();
+                let init: Vec<[u64; 4]> = (0..3).map(|_| if rng.chance(1, 2) { [0; 4] } else { rw(rng) }).collect();
+                json!({"kind": "pipe_double", "ptr": *rng.pick(&[0u64, 1000, 77777, (1u64 << 32) - 8]), "data": words_json(&data), "init": words_json(&init)})
             }
             4 => {
                 let n = rng.range(1, 9);
@@ -573,7 +619,7 @@ impl Prop for C18 {
         vec!["/plans", "/ops", "/init", "/pushes", "/inputs"]
     }
     fn components_real(&self) -> Vec<&'static str> {
-        vec!["stdlib: sys::truncate_stack, mem::{memcopy, pipe_words_to_memory, pipe_preimage_to_memory}, collections::smt::{set,get}, collections::mmr::{add,get,pack,unpack}", "assembler, processor, advice injectors (smt/merkle), MemAdviceProvider + MerkleStore"]
+        vec!["stdlib: sys::truncate_stack, mem::{memcopy, pipe_double_words_to_memory, pipe_words_to_memory, pipe_preimage_to_memory}, collections::smt::{set,get}, collections::mmr::{add,get,pack,unpack}", "assembler, processor, advice injectors (smt/merkle), MemAdviceProvider + MerkleStore"]
     }
     fn components_simulated(&self) -> Vec<&'static str> {
         vec!["host persistence and faults (lost / corrupted map entries, nodes, paths)", "native models: miden-crypto Smt and Mmr, RPO hash_elements, memory map"]
